@@ -622,22 +622,21 @@ impl Task for ExternalEquivalenceTask {
         // A private predicate of the program that clashes with a private predicate of the
         // specification is renamed by appending `_p`; the new name must itself be unused
         // (e.g. `q` and `q_p` may both be private predicates of the specification).
-        let mut taken_names = public_predicates.clone();
-        taken_names.extend(specification_private_predicates.iter().cloned());
-        taken_names.extend(program_private_predicates.iter().cloned());
+        // Names are compared without their arity: in the TPTP output a predicate is identified
+        // by its name alone, so `q/1` must not become `q_p/1` next to an existing `q_p/2`.
+        let mut taken_names: IndexSet<String> = public_predicates
+            .iter()
+            .chain(specification_private_predicates.iter())
+            .chain(program_private_predicates.iter())
+            .map(|p| p.symbol.clone())
+            .collect();
         let mut renaming = IndexMap::new();
         for predicate in specification_private_predicates.intersection(&program_private_predicates) {
             let mut extension = "p".to_string();
-            while taken_names.contains(&fol::Predicate {
-                symbol: format!("{}_{}", predicate.symbol, extension),
-                arity: predicate.arity,
-            }) {
+            while taken_names.contains(&format!("{}_{}", predicate.symbol, extension)) {
                 extension.push_str("_p");
             }
-            taken_names.insert(fol::Predicate {
-                symbol: format!("{}_{}", predicate.symbol, extension),
-                arity: predicate.arity,
-            });
+            taken_names.insert(format!("{}_{}", predicate.symbol, extension));
             renaming.insert(predicate.clone(), extension);
         }
         let right = right.rename_predicates(&renaming);
